@@ -182,16 +182,6 @@ Proof. rewrite isum_exchange. apply isum_ext. intros c _. now rewrite isum_mul_r
 End Contraction.
 
 (* ------------------------------------------------------------------ products of ranges *)
-Lemma NoDup_list_prod {X Y} (la : list X) (lb : list Y) : NoDup la -> NoDup lb -> NoDup (list_prod la lb).
-Proof.
-  intros Na Nb. induction Na as [|a la Hnotin Na IH]; simpl. constructor.
-  apply NoDup_app'.
-  - apply NoDup_map_inj; auto. intros x y E. now inversion E.
-  - exact IH.
-  - intros [x y] Hin Hc. apply in_map_iff in Hin as (y' & E & _). inversion E; subst.
-    apply in_prod_iff in Hc as [Hc _]. contradiction.
-Qed.
-
 Lemma pos1_eqb_spec (a b : pos1) : pos1_eqb a b = true <-> a = b.
 Proof.
   destruct a as [[n c] w], b as [[n' c'] w']. unfold pos1_eqb. rewrite !andb_true_iff, !Z.eqb_eq.
@@ -255,3 +245,53 @@ Proof.
   rewrite E. apply isum_ext. intros i _. now rewrite place1_scatter.
 Qed.
 End Window1.
+
+(* ------------------------------------------------------------------ 2-D: the same facts from package D's closed forms *)
+Lemma in_Jwin g wi wj n c a b : In (wi, wj, n, c, a, b) (Jwin g) <->
+  0 <= wi < lH g /\ 0 <= wj < lW g /\ 0 <= n < gN g /\ 0 <= c < gC g /\ 0 <= a < kH g /\ 0 <= b < kW g.
+Proof. unfold Jwin. rewrite !in_prod_iff, !in_zr. tauto. Qed.
+
+Lemma phi_win_opt_into g t i : phi_win_opt g t = Some i -> In i (Ipos g).
+Proof.
+  destruct t as [[[[[wi wj] n] c] a] b]. unfold phi_win_opt, phi_win.
+  destruct (pad_lookup g _) eqn:E; try discriminate. cbn [cell_opt]. intros E'. inversion E'; subst.
+  eapply pad_lookup_At; eauto.
+Qed.
+
+Section Window2.
+Context {A : Type} `{ScalarLaws A}.
+
+Lemma isum_Jwin g (F : win6 -> A) :
+  isum (Jwin g) F = isum (zr (lH g)) (fun wi => isum (zr (lW g)) (fun wj => isum (zr (gN g)) (fun n => isum (zr (gC g)) (fun c =>
+                    isum (zr (kH g)) (fun a => isum (zr (kW g)) (fun b => F (wi, wj, n, c, a, b))))))).
+Proof. unfold Jwin, win6. rewrite !isum_list_prod. reflexivity. Qed.
+
+Lemma place2_scatter g (y : win6 -> A) i : valid g ->
+  place2 g y i = scatter pos win6 pos_eqb (Jwin g) (phi_win_opt g) y i.
+Proof.
+  intros Hv. unfold place2, col2im_apply, scatter.
+  rewrite (pw_sum g (fun t o => match o with Some i' => if pos_eqb i' i then y t else s0 | None => s0 end) Hv).
+  rewrite isum_Jwin. unfold P2, P4. rewrite !isum_list_prod.
+  apply isum_ext; intros wi _. apply isum_ext; intros wj _. rewrite !isum_list_prod. reflexivity.
+Qed.
+
+Lemma windows2_gather g (x : pos -> A) t : valid g -> In t (Jwin g) ->
+  windows2 g s0 x t = gather pos win6 (phi_win_opt g) x t.
+Proof.
+  intros Hv Hin. destruct t as [[[[[wi wj] n] c] a] b]. apply in_Jwin in Hin as (Hwi & Hwj & Hn & Hc & Ha & Hb).
+  unfold windows2, gather. rewrite ew_closed by auto. apply cell_val_opt.
+Qed.
+
+(* extract_windows and place_windows are adjoint (2-D) *)
+Theorem windows2_adjoint g (x : pos -> A) (y : win6 -> A) : valid g ->
+  dotl (Jwin g) y (windows2 g s0 x) = dotl (Ipos g) (place2 g y) x.
+Proof.
+  intros Hv.
+  pose proof (gather_scatter_adjoint pos win6 pos_eqb pos_eqb_spec (Ipos g) (Jwin g) (NoDup_Ipos g)
+                (phi_win_opt g) x y (fun j i _ => phi_win_opt_into g j i)) as E.
+  unfold dot in E. unfold dotl.
+  transitivity (isum (Jwin g) (fun k => smul (y k) (gather pos win6 (phi_win_opt g) x k))).
+  { apply isum_ext. intros t Ht. now rewrite windows2_gather. }
+  etransitivity; [exact E|]. apply isum_ext. intros i _. now rewrite place2_scatter.
+Qed.
+End Window2.
